@@ -31,6 +31,11 @@ func dependants(exp *ref.Result, f *ref.Task) map[string]bool {
 				continue
 			}
 			for _, it := range t.In {
+				if it.Stream {
+					// the consumer of a streamed item runs at the same time as its producer by design; it and what
+					// follows from it are not judged as "must not execute"
+					continue
+				}
 				if it.Producer != nil && dep[it.Producer] {
 					dep[t] = true
 					changed = true
@@ -233,10 +238,30 @@ func c09(args []string) {
 			jobs = append(jobs, &job{s: s, exp: exp, f: f, mode: mode, bh: vproto.Behaviours{f.Key: {"fail": mode, "sleep": "10"}}, cfg: Cfg{Buf: 128, Procs: []int{1, 2, 4}[k%3]}, idx: -1})
 		}
 	}
+	// a task with a streaming output and a file output (whose port name sorts after the stream's) that does not
+	// produce the file output
+	{
+		s := &spec.Spec{Name: "streamplusfile", MaxTasks: 6, Sources: map[string]string{"m0.txt": "m0\n", "m1.txt": "m1\n"}}
+		in := []spec.PortDecl{{Name: "in"}}
+		s.Procs = append(s.Procs, &spec.Proc{Name: "src", Kind: spec.KFileSource, Files: []string{"m0.txt", "m1.txt"}},
+			&spec.Proc{Name: "PROD", Kind: spec.KCmd, Cmd: spec.BuildCmd("PROD", in, []spec.PortDecl{{Name: "astream", Stream: true}, {Name: "zfile"}}, nil, nil, nil)},
+			&spec.Proc{Name: "CONS", Kind: spec.KCmd, Cmd: spec.BuildCmd("CONS", in, []spec.PortDecl{{Name: "out"}}, nil, nil, nil)},
+			&spec.Proc{Name: "D", Kind: spec.KCmd, Cmd: spec.BuildCmd("D", in, []spec.PortDecl{{Name: "out"}}, nil, nil, nil)})
+		s.Conns = append(s.Conns, &spec.Conn{From: "src.out", To: "PROD.in"}, &spec.Conn{From: "PROD.astream", To: "CONS.in"}, &spec.Conn{From: "PROD.zfile", To: "D.in"})
+		exp := evalRef(s, nil)
+		if exp.Err != "" {
+			c.Broken("reference cannot evaluate the stream-plus-file shape: " + exp.Err)
+		}
+		for k := 0; k < c.Pick(4, 12); k++ {
+			f := exp.ByProc["PROD"][k%2]
+			mode := []string{"omit-output", "wrong-place"}[(k/2)%2]
+			jobs = append(jobs, &job{s: s, exp: exp, f: f, mode: mode, bh: vproto.Behaviours{f.Key: {"fail": mode, "sleep": "10"}}, cfg: Cfg{Buf: 128, Procs: []int{2, 4}[k%2]}, idx: -1})
+		}
+	}
 	// shapes in which the workflow's sink drains a file branch and a parameter branch (RunTo cuts, unconsumed
 	// parameter sources): a task that fails after the parameter stream is long closed must still fail the program
 	for _, s := range c05Shapes(c, rng) {
-		if !strings.HasPrefix(s.Name, "danglingparam") && !strings.HasPrefix(s.Name, "runtocut") && !strings.HasPrefix(s.Name, "runtoparamchain") && !strings.HasPrefix(s.Name, "leaves") {
+		if !strings.HasPrefix(s.Name, "danglingparam") && !strings.HasPrefix(s.Name, "runtocut") && !strings.HasPrefix(s.Name, "runtoparamchain") && !strings.HasPrefix(s.Name, "leaves") && !strings.HasPrefix(s.Name, "leafdriver") {
 			continue
 		}
 		exp := evalRef(s, nil)
@@ -245,6 +270,10 @@ func c09(args []string) {
 		}
 		for k := 0; k < c.Pick(2, 6); k++ {
 			f := exp.Tasks[rng.Intn(len(exp.Tasks))]
+			if strings.HasPrefix(s.Name, "leafdriver") {
+				// the out-port-less driver process finishes; a task of the branch that ends in the sink fails later
+				f = exp.ByProc["other"][rng.Intn(len(exp.ByProc["other"]))]
+			}
 			if len(f.Outs) == 0 {
 				continue
 			}
